@@ -121,7 +121,7 @@ ADDED = {
     "C04": " Also: the absolute-threshold rule covers the numba hafnian kernels (the guard of an identity-rescaling arm is the accepted idiom); an exact zero test of a sum is applied to summands that cannot cancel. Also: no `<<` is evaluated in fewer bits than the stated multiplicity range needs with a run-time count; an in-place rescaling helper returns on every path the factor it applied on that path; the native kernels branch on computed floating values only through exact tests (no absolute tolerance). Also: (f) a scale factor computed as a norm of the input (sum of absolute values) is never used as a divisor - in the same function, in a callee that receives it, or after being returned - without a dominating zero test (the all-zero matrix is a legal input); (g) an entry of a kernel's input array or of a copy of it is only updated from its old value, never overwritten.",
     "C07": " Also: every moment update of the six Gaussian update functions is executed on every non-raising path (CFG must-pass-through). Also: every closed-form block is free of config.hbar; the S_(c) matrices printed in the class docstrings equal [[P, A], [conj A, conj P]] assembled from the blocks (LaTeX fragment reader); the steps registered for gates keep the requested mode order (no sorted image, no order-insensitive shortcut). Also: (g) ownership of the Gaussian second moments - only the update helpers assign C and G (always both); the registered steps never do and change m only additively; helper methods of a gate class are evaluated in place by the closed-form engine.",
     "C08": " Also: a triangle of a density matrix mirrored by plain transposition is reported; the attenuator's weight equals the channel formula its docstring states (when stated). Also: (b) every update of the mixed-Fock density matrix has a Hermiticity-preserving form (K rho K^dagger with the same K on both sides, an elementwise factor exp(i(g(ket) - g(bra))), an explicit conjugate-transpose mirror fill) and the attenuator's weights are symmetric under ket <-> bra. Also: a second update of the attenuator at the swapped (bra, ket) index must add the complex conjugate of the primary value. Also: (c) the Gaussian channel updates the covariance matrix by a congruence (right factor = transpose of the left factor), as one expression or as a row update followed by a column update.",
-    "C09": " Also: (e) a connector's hand-written polar decomposition has the contract of scipy.linalg.polar (P^2 = M^dagger M, U = M P^-1 on the right; P^2 = M M^dagger, U = P^-1 M on the left), decided in the matrix-word algebra; the result of connector.assign bound to a local that is never read again is reported (lost update under functional connectors). Also: (d) the NumPy/numba and the JAX implementation of the Gaussian density-matrix recurrence have the same normal form (pivot, initial term, loop summands, divisor). Also: (e) polar methods that delegate to a library polar on a transformed matrix return factors whose product is the matrix (word algebra with a Hermitian polar factor); (f) the array handed to connector.assign is consumed - after `B = connector.assign(A, ...)` neither A nor an alias of A is read again on any CFG path (NumPy updates it in place, JAX/TensorFlow do not).",
+    "C09": " Also: (e) a connector's hand-written polar decomposition has the contract of scipy.linalg.polar (P^2 = M^dagger M, U = M P^-1 on the right; P^2 = M M^dagger, U = P^-1 M on the left), decided in the matrix-word algebra; the result of connector.assign bound to a local that is never read again is reported (lost update under functional connectors). Also: (d) the NumPy/numba and the JAX implementation of the Gaussian density-matrix recurrence have the same normal form (pivot, initial term, loop summands, divisor). Also: (e) polar methods that delegate to a library polar on a transformed matrix return factors whose product is the matrix (word algebra with a Hermitian polar factor); (f) the array handed to connector.assign is consumed - after `B = connector.assign(A, ...)` neither A nor an alias of A is read again on any CFG path (NumPy updates it in place, JAX/TensorFlow do not). Also: (g) the formula used for traced angles in GaussianState.get_phaseshifter_expectation_value has the same kernel as the eager formula: both exponents u^dagger T u are compared through the symbolic inverses of their kernels in an algebra where diagonal matrices commute with each other but not with the covariance, and the diagonal parts are compared as functions of the angle (sympy).",
     "C11": " Also: (g) no Python code reads the worker count (numba.get_num_threads, NUMBA_NUM_THREADS, cpu_count); (h) a hand-written cache keys on every attribute of self that the cached method reads and that a method other than __init__ re-assigns or mutates. Also: the seed of every privately constructed generator is traced to a read of the seed_sequence property; no object shared by the shots of a dask region (bound by partial, free variable of the per-shot closure) is written in place by the per-shot callable; the jobs of the native permanent tile the Gray-code range exactly for every job count (S(0)=0, E(K-1)=M-1, S(j+1)=E(j)+1, proved by case split over the comparisons). Also: (h, module-level form) a dict bound at module level and filled under `if key not in CACHE` is keyed on every input (access path rooted at a parameter) the stored value is computed from. Also: the identity of arrays updated through connector.assign is not a cache key; a shared Generator is replaced, never re-seeded in place.",
     "C06": " Also: (d) the accumulators of the vectorised index functions have a literal integer dtype of at least 32 bits, never the dtype of the argument. Also: (e) loop invariant of comb / arr_comb decided with sympy: the accumulator starts at 1 and one iteration maps C(n, i) to C(n, i + 1), so the division inside the loop is exact, intermediates are binomial coefficients and the accumulator itself is returned.",
     "C12": " Also: (f) branches built in a loop do not share one state object (the simulator evolves branch states in place); shallow copies (copy.copy) keep their element aliases, the parts of a memoised object reached through attributes belong to it and attribute stores on them are writes.",
